@@ -162,7 +162,7 @@ Lemma cleanup_no_garbage ub s :
   forall d, In d (dirs (fst (step s (Cleanup ub)))) -> exists n i, In (n, i) (meta (fst (step s (Cleanup ub)))) /\ d = DId (i_id i).
 Proof.
   simpl. unfold do_cleanup. destruct (closed s); simpl; [discriminate|].
-  destruct (Nat.eqb (seq s) 0); simpl; [discriminate|]. intros _ d H.
+  intros _ d H.
   destruct (cleanup_dirs_spec ub (cleanup_list s false) s) as [E [Sh [D _]]].
   apply D in H. destruct H as [A B]. destruct Sh. rewrite sh_meta.
   destruct d as [id|n].
@@ -172,10 +172,8 @@ Proof.
   - exfalso. apply B. apply cleanup_list_in. split; auto.
 Qed.
 
-Lemma cleanup_ok_iff ub s : closed s = false -> (snd (step s (Cleanup ub)) = ROk <-> seq s <> 0).
-Proof.
-  intros C. simpl. unfold do_cleanup. rewrite C. destruct (Nat.eqb_spec (seq s) 0); simpl; split; intros H; auto; try discriminate; contradiction.
-Qed.
+Lemma cleanup_ok ub s : closed s = false -> snd (step s (Cleanup ub)) = ROk.
+Proof. intros C. simpl. unfold do_cleanup. rewrite C. reflexivity. Qed.
 
 (* ---------- acknowledged snapshots survive every crash point ---------- *)
 Lemma cleanup_points_meta s m q iter ds : forall cur c img,
@@ -249,7 +247,7 @@ Proof.
     destruct H as [H|H]; [inversion H; subst img; exact LD|].
     apply cleanup_points_meta in H. destruct H as [H _]. rewrite H. exact LD.
   - (* Cleanup *)
-    destruct (closed s || Nat.eqb (seq s) 0); [simpl in H; contradiction|].
+    destruct (closed s); [simpl in H; contradiction|].
     destruct (order_ok order (cleanup_list s false)); [|simpl in H; contradiction].
     apply cleanup_points_meta in H. destruct H as [H _]. rewrite H. exact L.
   - (* Close *)
@@ -375,7 +373,7 @@ Proof.
     pose proof (order_ok_in _ _ _ OK Q2) as Q3. apply cleanup_list_in in Q3. destruct Q3 as [_ Q3]. simpl in Q3.
     apply Q3. apply in_ids. exists n, i. split; auto. apply lookup_in. exact L.
   - (* Cleanup *)
-    destruct (closed s || Nat.eqb (seq s) 0); [simpl in H; contradiction|].
+    rewrite C in H.
     destruct (order_ok order (cleanup_list s false)) eqn:OK; [|simpl in H; contradiction].
     pose proof (cleanup_points_meta _ _ _ _ _ _ _ _ H) as [M _]. rewrite M in L.
     eapply cleanup_points_dirs; eauto.
@@ -404,3 +402,44 @@ Lemma live_dirs_survive_nth a os o order k c img :
   forall n i, lookup (meta img) n = Some i -> (is_close o = true -> l_remote (i_labels i) = false) ->
   In (DId (i_id i)) (dirs img).
 Proof. intros s C H. apply nth_error_In in H. eapply live_dirs_survive; eauto. apply reach_inv. Qed.
+
+(* ---------- after the fix C09-fix-1: one Cleanup after restart always succeeds and is exact ---------- *)
+Lemma one_cleanup_suffices nr allow mbad img s' ub :
+  restart nr allow mbad img = (s', true) ->
+  snd (step s' (Cleanup ub)) = ROk /\
+  forall d, In d (dirs (fst (step s' (Cleanup ub)))) ->
+    exists n i, In (n, i) (meta (fst (step s' (Cleanup ub)))) /\ d = DId (i_id i).
+Proof.
+  intros R. pose proof (restart_state _ _ _ _ _ R) as [_ [_ [C _]]].
+  pose proof (cleanup_ok ub s' C) as OK. split; [exact OK|]. apply cleanup_no_garbage. exact OK.
+Qed.
+
+Lemma one_cleanup_exact a os o order k c img nr allow mbad s' ub :
+  let s := exec (init a) os in
+  closed s = false ->
+  nth_error (crash_points order s o) k = Some (c, img) ->
+  restart nr allow mbad img = (s', true) ->
+  (nr = false \/ is_close o = false) ->
+  let s2 := fst (step s' (Cleanup ub)) in
+  meta s2 = meta img /\
+  (forall d, In d (dirs s2) -> exists n i, In (n, i) (meta s2) /\ d = DId (i_id i)) /\
+  (forall n i, lookup (meta s2) n = Some i -> In (DId (i_id i)) (dirs s2)).
+Proof.
+  intros s C H R NC s2.
+  pose proof (restart_state _ _ _ _ _ R) as [M [_ [C' [_ D]]]].
+  destruct (one_cleanup_suffices _ _ _ _ _ ub R) as [_ G].
+  assert (E2 : s2 = cleanup_dirs ub s' (cleanup_list s' false)).
+  { unfold s2. simpl. unfold do_cleanup. rewrite C'. reflexivity. }
+  destruct (cleanup_dirs_spec ub (cleanup_list s' false) s') as [E [Sh [DD _]]].
+  assert (M2 : meta s2 = meta s') by (rewrite E2; destruct Sh; auto).
+  split; [congruence|]. split; [exact G|].
+  intros n i L. rewrite M2, M in L. rewrite E2. apply DD. split.
+  - apply D. destruct (is_close o) eqn:IC.
+    + destruct (l_remote (i_labels i)) eqn:RM.
+      * right. destruct NC as [NC|NC]; [|discriminate]. split; [exact NC|]. exists n, i.
+        split; [apply lookup_in; exact L|]. split; [exact RM|reflexivity].
+      * left. eapply live_dirs_survive_nth; eauto.
+    + left. eapply live_dirs_survive_nth; eauto. intros Q; congruence.
+  - intros Q. apply cleanup_list_in in Q. destruct Q as [_ Q]. apply Q. apply in_ids. exists n, i.
+    split; [|reflexivity]. rewrite M. apply lookup_in. exact L.
+Qed.
